@@ -431,7 +431,7 @@ Lemma may_accept_complete : forall v j,
 Proof.
   intros v j Hcat Hnn Hma. destruct v; simpl in Hma; try discriminate.
   - destruct Hcat as [[H _]|H]; discriminate.
-  - destruct j; try discriminate; reflexivity.
+  - destruct j; try discriminate; try reflexivity. simpl. destruct (parse_int s); [discriminate|reflexivity].
   - destruct j; try discriminate; reflexivity.
   - destruct j; try discriminate; reflexivity.
   - destruct Hcat as [[_ [kv Hj]]|H]; [|discriminate]. subst j. simpl.
@@ -658,4 +658,23 @@ Proof.
   exists (TUnion None [tB; tA; tC; TList TInt; TNone]), (JObj [(k_x, JInt 1%Z)]).
   split; [exact (proj1 guard_nonvacuous_1)|]. split; [|discriminate].
   eexists _, _. split; [reflexivity|]. simpl. repeat constructor.
+Qed.
+
+(* ------------------------------------------------------------------------------------- *)
+(* How far is [safe] from necessary?  It is sufficient (safe_lossless) but NOT necessary:
+   [may_accept] is a shape-level over-approximation of "structure succeeds".  It is exact for
+   primitives (int("a") fails, so Union[int,str] with "a" is safe) ... *)
+Example safe_int_str_nondigit :
+  safe (TUnion None [TInt; TStr]) (JStr [97]) = true /\ safe (TUnion None [TInt; TStr]) (JStr [55]) = false.
+Proof. split; vm_compute; reflexivity. Qed.
+
+(* ... but not for dataclass variants: A{x:int} has its required key in {x:"q"} and is therefore assumed
+   to accept it, although int("q") fails and the next variant S{x:str} then decodes the payload losslessly *)
+Definition tS := TObj [83] [(k_x, (TStr, true))].
+Example lossless_not_safe :
+  safe (TUnion None [tA; tS]) (JObj [(k_x, JStr [113])]) = false /\
+  lossless (TUnion None [tA; tS]) (JObj [(k_x, JStr [113])]).
+Proof.
+  split; [vm_compute; reflexivity|].
+  exists (VObj [83] [(k_x, VStr [113])]). split; vm_compute; reflexivity.
 Qed.
